@@ -11,6 +11,9 @@
                    initialisation (C20_hist_interrupted_init_refuted_if_publishes);
      flag = false  it holds unconditionally (C20_hist_history_if_publishes_last).
    Which case holds now is the single obligation of Inst/C20Finding.v (resp. Inst/C20Fixed.v). *)
+(* source pins: the functions of /repo the hand-written models in this file's cone mirror have the normalised AST they
+   were written from (tools/regen/gen_srcpins.py; a changed function breaks its Gen/Pin_*.v and this file with it) *)
+From SqlModel.Gen Require Pin_api_glue Pin_formatter_module.
 From Coq Require Import String.
 From SqlModel.Gen Require LexPins.
 From SqlModel Require Import Base.
